@@ -108,6 +108,7 @@ PROPS["C05"] = dict(
 )
 
 
+SCORES_INV = ["TypeOK", "LenOK", "ResizeKeeps", "ReadsPure", "EmptyView", "IndexLinear", "OffsetBij", "ReduceCovers", "IterRefines", "IterExact", "EmitReplay"]
 PROPS["C01"] = dict(
     mc=[
         dict(name="MC_Score_C2", module="MC_Score", invariants=["KernelRefines", "FullScanOK"], actions=["Pick"],
@@ -122,9 +123,24 @@ PROPS["C01"] = dict(
         dict(name="MC_Score_C1_M4", module="MC_Score", invariants=["KernelRefines", "FullScanOK"], actions=["Pick"],
              constants=dict(C=1, Vals="{0, 2}", WVals="{0}"),
              quick=dict(MaxLen=4, MaxM=3), thorough=dict(MaxLen=5, MaxM=4), tiers=("thorough",)),
+        # the object scoring fills and the caller reads "the value at position i" from (spec/Scores.tla): every operation
+        # history to a fixed depth with the iterator as coded checked against the linear view, the histories of the linear
+        # view replayed on the real StripedScores, the coordinate-cursor iterator as negative control
+        dict(name="MC_Scores", module="MC_Scores", view="View", invariants=SCORES_INV,
+             constants=dict(C=2, K=3, Cursors=False, Emit=False, OpsMode='"all"'),
+             quick=dict(MaxRows=2, MaxDepth=3), thorough=dict(MaxRows=3, MaxDepth=4),
+             actions=["Resize", "Write", "Read", "Iterate", "Reduce"]),
+        dict(name="MC_Scores_replay_linear", module="MC_Scores", invariants=SCORES_INV, emit=True,
+             constants=dict(C=2, K=3, Cursors=False, Emit=True, OpsMode='"linear"'),
+             quick=dict(MaxRows=2, MaxDepth=3), thorough=dict(MaxRows=2, MaxDepth=4),
+             actions=["Resize", "Write", "Read", "Iterate"]),
+        dict(name="MC_Scores_neg_cursor_iterator", module="MC_Scores", invariants=["IterRefines"], expect_violation="IterRefines",
+             constants=dict(C=2, K=3, Cursors=True, Emit=False, OpsMode='"all"', MaxRows=2, MaxDepth=3)),
     ],
     record=True, trace="Trace_C01", shards=12,
-    level_text="WindowScore is the D-layer definition; the column-wise kernel reading the striped matrix with look-ahead "
+    also_record=[dict(package="lmconform", mode="scores-linear", trace="Trace_Scores", tag="scores-object", shards=4)],
+    level_text="The score table as an object (spec/Scores.tla): every operation history to a fixed depth is model-checked (linear view, iterator as coded refined against it, coordinate-cursor iterator as negative control), every history of the linear view is replayed on the real StripedScores, and random histories of the real object are validated by TLC. "
+               "WindowScore is the D-layer definition; the column-wise kernel reading the striped matrix with look-ahead "
                "rows is model-checked against it for every small sequence, matrix (finite and -inf cells) and row "
                "sub-range, including look-ahead deeper than the sequence rows; every recorded scoring call of the real "
                "generic (C=1,2,4,16,32) / SSE2 (16,32) / AVX2 / dispatched (each arm forced) pipelines, DNA (permute "
@@ -158,9 +174,17 @@ PROPS["C07"] = dict(
              constants=dict(C=2, Vals="<- ValsN", MaxInit="<- ZeroC", Perm="<- Ident2", Assumed="<- Ident2", MaxRows=2)),
         dict(name="MC_Reduce_neg_lane_order", module="MC_Reduce", invariants=["LanesOK"], expect_violation="LanesOK",
              constants=dict(C=4, Vals="<- ValsU", MaxInit="<- ZeroC", Perm="<- Swap4", Assumed="<- Ident4", MaxRows=2)),
+        # the object the reductions read (spec/Scores.tla): its histories of resize / write / offset / maximum / threshold
+        # replayed on the real StripedScores (the model itself and the histories of the linear view are in C01)
+        dict(name="MC_Scores_replay_reduce", module="MC_Scores", invariants=SCORES_INV, emit=True,
+             constants=dict(C=2, K=3, Cursors=False, Emit=True, OpsMode='"reduce"'),
+             quick=dict(MaxRows=2, MaxDepth=3), thorough=dict(MaxRows=2, MaxDepth=4),
+             actions=["Resize", "Write", "Read", "Reduce"]),
     ],
     record=True, trace="Trace_C07", shards=12,
-    level_text="Maximum / arg-maximum / threshold set are D-layer definitions over a rows x C table; the generic scan, the "
+    also_record=[dict(package="lmconform", mode="scores-reduce", trace="Trace_Scores", tag="scores-object", shards=4)],
+    level_text="The histories of offsets / maximum / threshold of the score-table model (spec/Scores.tla) are replayed on the real StripedScores and random histories of the real object (generic pipeline and the dispatched StripedScores methods) are validated by TLC. "
+               "Maximum / arg-maximum / threshold set are D-layer definitions over a rows x C table; the generic scan, the "
                "AVX2 column-maxima arg-max, the AVX2 max kernel (initial accumulator as a parameter) and the AVX2 u8 "
                "arg-max (lane order of the unpack step as a parameter) are model-checked against them on every small "
                "table, with the as-originally-coded variants (zero accumulator, identity lane order) kept as negative "
